@@ -145,6 +145,63 @@ func execAddr(c Case) string {
 			out = append(out, decObs(d, err))
 		}
 		return strings.Join(out, " ")
+	case "conc": // conc <k> <iters> <seed>: the constructors/encoders are pure functions; used from k goroutines they must agree with sequential use
+		k, iters, seed := atoi(a[0]), atoi(a[1]), atou(a[2])
+		mk := func(g, j int) string {
+			sc := NewRng(seed+uint64(g)*1000003+uint64(j), "conc").Bytes(1 + (g+j)%40)
+			net := nets[(g+j)%len(nets)]
+			switch j % 4 {
+			case 0:
+				ad, _ := bchutil.NewAddressScriptHash(sc, net)
+				return ad.EncodeAddress()
+			case 1:
+				ad, _ := bchutil.NewAddressScriptHash32(sc, net)
+				return ad.EncodeAddress()
+			case 2:
+				ad, _ := bchutil.NewLegacyAddressScriptHash(sc, net)
+				return ad.EncodeAddress()
+			}
+			ad, _ := bchutil.NewAddressPubKeyHash(bchutil.Hash160(sc), net)
+			d, err := bchutil.DecodeAddress(ad.EncodeAddress(), net)
+			if err != nil {
+				return "err"
+			}
+			return d.EncodeAddress()
+		}
+		want := make([][]string, k)
+		for g := 0; g < k; g++ {
+			for j := 0; j < iters; j++ {
+				want[g] = append(want[g], mk(g, j))
+			}
+		}
+		bad := make([]int, k)
+		done := make(chan bool)
+		for g := 0; g < k; g++ {
+			go func(g int) {
+				defer func() {
+					if e := recover(); e != nil {
+						bad[g] += 1000000
+					}
+					done <- true
+				}()
+				for j := 0; j < iters; j++ {
+					if mk(g, j) != want[g][j] {
+						bad[g]++
+					}
+				}
+			}(g)
+		}
+		tot := 0
+		for g := 0; g < k; g++ {
+			<-done
+		}
+		for _, b := range bad {
+			tot += b
+		}
+		if tot > 0 {
+			return "mismatch:" + itoa(tot)
+		}
+		return "ok"
 	case "dec": // dec <net> <string>
 		d, err := bchutil.DecodeAddress(string(unhx(a[1])), netIdx(a[0]))
 		return decObs(d, err)
@@ -316,6 +373,7 @@ func init() {
 
 func genC01(r *Rng, tier string, emit func(Case)) {
 	e := func(op, cls string, args ...string) { emit(Case{op, cls, args}) }
+	e("conc", "goroutines", "8", "1500", u64s(r.U64()&0xffff))
 	n := 400
 	if tier == "thorough" {
 		n = 8000
@@ -482,6 +540,10 @@ func genC02(r *Rng, tier string, emit func(Case)) {
 		b2 := []byte(s)
 		b2[r.Intn(len(b2))] = []byte("bio1 -_\xe2\x84\xaa\x80K")[r.Intn(11)]
 		e("dec", "badchar", itoa(ni), hx(b2))
+		if i%4 == 0 {
+			e("dec", "utf8", itoa(ni), hs(utf8Variant(r, s)))
+			e("dec", "utf8", itoa(ni), hs(utf8Variant(r, pre+":"+s)))
+		}
 		// kelvin sign in place of k (regression for fix f8a0c20)
 		if strings.Contains(s, "k") {
 			e("dec", "kelvin", itoa(ni), hs(strings.Replace(s, "k", "K", 1)))
@@ -499,6 +561,7 @@ func genC02(r *Rng, tier string, emit func(Case)) {
 		e("dec", "legacybad", itoa(ni), hs(base58.Encode(lb)))
 		if r.Intn(4) == 0 {
 			e("dec", "legacy1", itoa(ni), hs("1"+ls))
+			e("dec", "legacy-utf8", itoa(ni), hs(utf8Variant(r, ls)))
 		}
 		// hex public keys
 		pub := randPubKey(r)
